@@ -80,3 +80,33 @@ Proof.
     destruct (find _ rules) as [[c cl']|]; reflexivity.
 Qed.
 End Proofs.
+
+(* the executable property holds of the model on every well-formed input (uses the C11 refinement) *)
+From Bfe Require Import proofs.BasicRouteProofs run.RunC11 run.RunC12.
+Theorem prop_C12_of_model i : dec_C12 i <> None -> prop_C12 i (run_C12 i) = true.
+Proof.
+  unfold prop_C12, run_C12. destruct (dec_C12 i) as [[[ob oa] req]|]; [|congruence]. intros _.
+  destruct ob as [rules|]; simpl load_opt.
+  - destruct (load_rules rules) as [t|] eqn:El; [|reflexivity].
+    refine (prop_shape _ _ _). rewrite lookup_refines_spec. simpl basic_result.
+    rewrite (get_refines_doc _ _ _ _ El). apply val_eqb_refl.
+  - refine (prop_shape _ _ _). rewrite lookup_refines_spec. apply val_eqb_refl.
+Qed.
+
+(* non-vacuity: product with basic table {www.a.com /a* -> B ; www.c.com * -> ADVANCED_MODE} and advanced rules
+   [POST -> P ; /x prefix -> X ; default -> D] *)
+From Coq Require Import String.
+Local Open Scope string_scope.
+Definition ex_basic : option htrees :=
+  load_rules [mkRule [b "www.a.com"] [b "/a*"] (b "B"); mkRule [b "www.c.com"] [] ADVANCED_MODE].
+Definition ex_adv : option (list (cond * bytes)) :=
+  Some [(CMethodIn [b "POST"], b "P"); (CPathPrefixIn [b "/x"], b "X"); (CDefault, b "D")].
+Lemma ex_lookups :
+  ex_basic <> None /\
+  lookup_cluster cond_holds ex_basic ex_adv (mkReq (b "www.a.com:8080") (b "/a/1") (b "POST")) = COk (b "B") /\
+  lookup_cluster cond_holds ex_basic ex_adv (mkReq (b "www.c.com") (b "/x") (b "POST")) = COk (b "P") /\
+  lookup_cluster cond_holds ex_basic ex_adv (mkReq (b "www.c.com") (b "/x") (b "GET")) = COk (b "X") /\
+  lookup_cluster cond_holds ex_basic ex_adv (mkReq (b "www.a.com") (b "/b") (b "GET")) = COk (b "D") /\
+  lookup_cluster cond_holds ex_basic (Some [(CMethodIn [b "POST"], b "P")]) (mkReq (b "www.a.com") (b "/b") (b "GET")) = CErrNoMatchRule /\
+  lookup_cluster cond_holds ex_basic None (mkReq (b "www.c.com") (b "/") (b "GET")) = CErrNoProductRule.
+Proof. vm_compute. repeat split; try reflexivity. discriminate. Qed.
